@@ -158,6 +158,13 @@ def evaluate(e, env):
                 if mod is not None: break
         if mod is not None:
             for st_ in mod.body:
+                # `from operator import attrgetter`, `import operator as op` at module level: a name of the trusted standard-library part
+                if isinstance(st_, ast.ImportFrom) and st_.module in TRUSTED:
+                    for a_ in st_.names:
+                        if (a_.asname or a_.name) == e.id: return evaluate(ast.Attribute(value=ast.Name(id=st_.module, ctx=ast.Load()), attr=a_.name, ctx=ast.Load()), dict(TRUSTED))
+                if isinstance(st_, ast.Import):
+                    for a_ in st_.names:
+                        if a_.asname == e.id and a_.name in TRUSTED: return TRUSTED[a_.name]
                 if isinstance(st_, (ast.Assign, ast.AnnAssign)) and st_.value is not None and any(isinstance(t_, ast.Name) and t_.id == e.id for t_ in (st_.targets if isinstance(st_, ast.Assign) else [st_.target])):
                     cenv_ = dict(TRUSTED)
                     for k_, x_ in env.items():          # constants / stand-ins the analysis supplied (imported names such as MULT_ONE, constructors)
@@ -283,6 +290,16 @@ def evaluate(e, env):
                 try: return getattr(recv, e.func.attr)(*_args(e.args, env))
                 except ValueError: raise Raised("ValueError")
                 except IndexError: raise Raised("IndexError")
+        if (isinstance(e.func, ast.Attribute) and e.func.attr == "sort" or isinstance(e.func, ast.Name) and e.func.id == "sorted" and "sorted" not in env) and e.keywords and all(k.arg in ("key", "reverse") for k in e.keywords):
+            # list.sort(key=..., reverse=...) / sorted(x, key=..., reverse=...): the key function is the interpreted closure
+            kw_ = {k.arg: evaluate(k.value, env) for k in e.keywords}
+            if "key" in kw_ and not callable(kw_["key"]): raise Unsupported("sort key")
+            try:
+                if isinstance(e.func, ast.Attribute):
+                    recv = evaluate(e.func.value, env)
+                    if isinstance(recv, list) and not e.args: recv.sort(**kw_); return None
+                elif len(e.args) == 1: return sorted(list(_iterate(evaluate(e.args[0], env), env)), **kw_)
+            except TypeError as x_: raise Raised("TypeError", str(x_))
         if isinstance(e.func, ast.Attribute) and e.func.attr in ("add", "discard", "remove", "update", "union", "issubset", "copy") and not e.keywords:
             recv = evaluate(e.func.value, env)
             if isinstance(recv, set):
@@ -388,6 +405,7 @@ def evaluate(e, env):
         # a helper of the analysed module (env["__functions__"]: name -> FunctionDef): interpreted with its parameters bound
         fns = env.get("__functions__") or {}
         hn = e.func.id if isinstance(e.func, ast.Name) else (e.func.attr if isinstance(e.func, ast.Attribute) and isinstance(e.func.value, ast.Name) and (e.func.value.id in ("self", "cls") or (e.func.value.id[:1].isupper() and e.func.value.id not in env)) else None)
+        if hn in fns and isinstance(e.func, ast.Attribute) and isinstance(env.get(e.func.value.id), dict) and isinstance(env[e.func.value.id].get("." + hn), PyFn): hn = None      # the sample object supplies this method itself (a recording stand-in)
         if hn in fns and env.get("__depth__", 0) < env.get("__maxdepth__", 6):
             h = fns[hn]
             params = [a.arg for a in h.args.args]
@@ -436,6 +454,10 @@ def evaluate(e, env):
             return instantiate(fv.name, _args(e.args, env), {k.arg: evaluate(k.value, env) for k in e.keywords if k.arg}, env)
         if isinstance(fv, Closure) and not e.keywords: return fv(*_args(e.args, env))
         if isinstance(fv, DefClosure): return fv(*_args(e.args, env), **{k.arg: evaluate(k.value, env) for k in e.keywords if k.arg})
+    if isinstance(e, ast.Call) and isinstance(e.func, ast.Attribute):
+        try: recv_ = evaluate(e.func.value, env)
+        except Unsupported: recv_ = e
+        if recv_ is None: raise Raised("AttributeError", "'NoneType' object has no attribute %r" % e.func.attr)
     raise Unsupported("expression outside the supported subset : " + ast.unparse(e)[:80])
 import re as _re, codecs as _codecs, unicodedata as _ud
 class Trusted:
@@ -591,6 +613,9 @@ class PyFn:
     for a function whose effect is modelled, e.g. fnmatch.fnmatch, language_descriptions)"""
     def __init__(s, fn): s.fn = fn
     def __call__(s, *a, **k): return s.fn(*a, **k)
+    def __eq__(s, o): return s is o or (isinstance(o, PyFn) and s.fn is o.fn) or (isinstance(s.fn, type) and s.fn is o)      # a builtin type used as a value equals the type (type(x) in [int, str])
+    def __ne__(s, o): return not s.__eq__(o)
+    def __hash__(s): return hash(s.fn)
 class Callee:
     """stand-in for a callable object of the analysed program: calling it records its tag and returns ('result', tag)"""
     def __init__(s, tag, log, ret="result"): s.tag, s.log, s.ret = tag, log, ret
@@ -635,6 +660,7 @@ def _exec(stmts, env, max_steps=2000):
             try: base = evaluate(tg.value, env)
             except Unsupported: base = None
             if isinstance(base, (ClassObj, InstObj)): base.own[tg.attr] = v
+            elif isinstance(base, (str, int, float, tuple, frozenset, bytes)) and not isinstance(base, bool): raise Raised("AttributeError", "'%s' object has no attribute %r" % (type(base).__name__, tg.attr))
             elif isinstance(base, dict) and any(isinstance(k_, str) and k_.startswith(".") for k_ in base) and ast.unparse(tg) not in env: base["." + tg.attr] = v      # a sample object
             else: env[ast.unparse(tg)] = v
         elif isinstance(tg, ast.Subscript) and not isinstance(tg.slice, ast.Slice):
@@ -651,6 +677,14 @@ def _exec(stmts, env, max_steps=2000):
             steps[0] += 1
             if steps[0] > max_steps: raise Unsupported("too many steps")
             if isinstance(s, ast.Expr) and isinstance(s.value, ast.Constant): continue
+            if isinstance(s, ast.ImportFrom) and s.module in TRUSTED:         # a function-local import of the trusted standard-library part binds its names
+                for a_ in s.names:
+                    if (a_.asname or a_.name) not in env: env[a_.asname or a_.name] = evaluate(ast.Attribute(value=ast.Name(id=s.module, ctx=ast.Load()), attr=a_.name, ctx=ast.Load()), dict(TRUSTED))
+                continue
+            if isinstance(s, ast.Import):
+                for a_ in s.names:
+                    if a_.name in TRUSTED and (a_.asname or a_.name) not in env: env[a_.asname or a_.name] = TRUSTED[a_.name]
+                continue
             if isinstance(s, (ast.Pass, ast.Import, ast.ImportFrom)): continue
             if isinstance(s, ast.Return): raise _Return(evaluate(s.value, env) if s.value is not None else None)
             if isinstance(s, ast.Raise) and s.exc is None and env.get("__exc__") is not None: raise env["__exc__"]
@@ -679,6 +713,15 @@ def _exec(stmts, env, max_steps=2000):
                         try: del base[evaluate(tg.slice, env)]
                         except (KeyError, IndexError): raise Raised("KeyError")
                     elif isinstance(tg, ast.Name): env.pop(tg.id, None)
+                    elif isinstance(tg, ast.Attribute):
+                        base = evaluate(tg.value, env)
+                        if isinstance(base, (ClassObj, InstObj)):
+                            if tg.attr not in base.own: raise Raised("AttributeError", tg.attr)
+                            del base.own[tg.attr]
+                        elif isinstance(base, dict) and any(isinstance(k_, str) and k_.startswith(".") for k_ in base):
+                            if "." + tg.attr not in base: raise Raised("AttributeError", tg.attr)
+                            del base["." + tg.attr]
+                        else: raise Unsupported("del target " + ast.unparse(tg))
                     else: raise Unsupported("del target " + ast.unparse(tg))
                 continue
             if isinstance(s, ast.Assert):
@@ -738,6 +781,13 @@ def _exec(stmts, env, max_steps=2000):
                         finally: env["__exc__"] = prev
                     else: yield from block(s.orelse)
                 finally: yield from block(s.finalbody)
+                continue
+            if isinstance(s, ast.With) and len(s.items) == 1 and isinstance(s.items[0].context_expr, ast.Call) and isinstance(s.items[0].context_expr.func, ast.Name) and s.items[0].context_expr.func.id == "suppress" and "suppress" not in env:
+                # contextlib.suppress(E, ...): the body runs; an exception of one of the classes ends it silently
+                names_ = [a_.attr if isinstance(a_, ast.Attribute) else getattr(a_, "id", "?") for a_ in s.items[0].context_expr.args]
+                try: yield from block(s.body)
+                except Raised as r:
+                    if not (r.cls in names_ or any(b_ in names_ for b_ in getattr(r, "bases", ())) or any(n_ in ("Exception", "BaseException") for n_ in names_)): raise
                 continue
             if isinstance(s, ast.Global):
                 env["__global_names__"] = set(env.get("__global_names__", ())) | set(s.names); continue
